@@ -283,6 +283,7 @@ func checkC01(c *Ctx, r *Report) {
 		Why: "a method belongs to a controller iff its receiver type (T or *T) is named exactly like the struct"})
 
 	ruleEarlyExitInventory(c, r, "C01.a", 10, "core/visitors", "core/metadata")
+	ruleIRWriters(c, r, "C01.d", "definitions.RouteMetadata", "definitions.ControllerMetadata", "definitions.MethodHideOptions", "definitions.DeprecationOptions", "definitions.RestMetadata")
 	// every element filter in these packages is a reviewed one
 	ruleSkipInventory(c, r, "C01.a", loadSkipTable(c.VerifDir), 8, "generator/swagen", "core/visitors", "core/metadata")
 }
